@@ -54,7 +54,19 @@ pub fn one<const D: usize>(id: &str, ps: &gens::PointSet, g: usize, robust: bool
             }
         };
     }
-    if robust {
+    if api == 3 {
+        // thin public wrappers: default options
+        let r = crate::common::catch(|| DelaunayTriangulation::<FastKernel<f64>, tri::VData, tri::CData, D>::with_topology_guarantee(&FastKernel::new(), &vs, tri::guarantee(g)).map_err(|e| format!("{e:?}")));
+        finish!(r, None::<(usize, usize, usize)>);
+    } else if api == 4 {
+        let r = crate::common::catch(|| delaunay::core::builder::DelaunayTriangulationBuilder::from_vertices(&vs)
+            .topology_guarantee(tri::guarantee(g)).construction_options(opts.build())
+            .build_with_kernel::<RobustKernel<f64>, tri::CData>(&RobustKernel::new()).map_err(|e| format!("{e:?}")));
+        finish!(r, None::<(usize, usize, usize)>);
+    } else if api == 5 {
+        let r = crate::common::catch(|| DelaunayTriangulation::<FastKernel<f64>, tri::VData, tri::CData, D>::with_kernel(&FastKernel::new(), &vs).map_err(|e| format!("{e:?}")));
+        finish!(r, None::<(usize, usize, usize)>);
+    } else if robust {
         let r = tri::build_robust::<D>(&vs, g, opts);
         finish!(r, None::<(usize, usize, usize)>);
     } else if api == 1 {
@@ -113,6 +125,24 @@ pub fn run(cfg: &Cfg, rng: &mut Rng, out: &mut Out) {
             3 => one::<3>(&id, &ps, g, robust, &opts, api, rng, out),
             4 => one::<4>(&id, &ps, g, robust, &opts, api, rng, out),
             _ => one::<5>(&id, &ps, g, robust, &opts, api, rng, out),
+        }
+    }
+    // the thin public wrappers (with_topology_guarantee, with_kernel, builder.build_with_kernel)
+    let defaults = Opts { order: 3, dedup: 0, simplex: 0, retry: 0 };
+    for i in 0..(if thorough { 240 } else { 36 }) {
+        let d = 2 + (i % 4);
+        let np = sizes(d, rng, false);
+        let ps = gens::point_set(rng, d, np);
+        let api = 3 + (i / 4 % 3) as u8;
+        // with_kernel uses the default guarantee (PLManifold)
+        let g = if api == 5 { 1 } else { [1usize, 0, 2][rng.below(3) as usize] };
+        let opts = if api == 4 { Opts::random(rng) } else { defaults.clone() };
+        let id = format!("w{i}");
+        match d {
+            2 => one::<2>(&id, &ps, g, api == 4, &opts, api, rng, out),
+            3 => one::<3>(&id, &ps, g, api == 4, &opts, api, rng, out),
+            4 => one::<4>(&id, &ps, g, api == 4, &opts, api, rng, out),
+            _ => one::<5>(&id, &ps, g, api == 4, &opts, api, rng, out),
         }
     }
     // stratified sweep: every degenerate family meets every topology guarantee in D = 3..5 under
